@@ -179,24 +179,31 @@ def iterate (σ : Leaves) (it : Iterable) (log : List Nat) : Except Err (List Ro
   | .error e => .error e
   | .ok rows => .ok (rows, (it.events σ none).reverse ++ log)
 
-/-- Lift `iterate` into `ExecM`. -/
-def iterateM (σ : Leaves) (it : Iterable) : ExecM (List Row) := fun s =>
+/-- `list(it)` with the bookkeeping of the leaf-iteration log, as a state transformer. -/
+def iterateS (σ : Leaves) (it : Iterable) (s : ExecState) : Except Err (List Row × ExecState) :=
   match iterate σ it s.log with
   | .error e => .error e
   | .ok (rows, log) => .ok (rows, { s with log := log })
 
+/-- Lift into `ExecM` (used by the processor model). -/
+def iterateM (σ : Leaves) (it : Iterable) : ExecM (List Row) := fun s => iterateS σ it s
+
 /-- `RowIterable.to_mapping(unique_key)`. -/
-def toMapping (σ : Leaves) (it : Iterable) (key : Cols) : ExecM Iterable :=
+def toMapping (σ : Leaves) (it : Iterable) (key : Cols) (s : ExecState) : Except Err (Iterable × ExecState) :=
   match it with
   | .mapping k rows =>
-    if k.seteq key then pure (.mapping k rows)       -- `unique_key == self.unique_key`: same object
-    else do
-      let d ← (dictDedup key rows : Except Err _)
-      pure (.mapping key d)
-  | _ => do
-    let rows ← iterateM σ it
-    let d ← (dictDedup key rows : Except Err _)
-    pure (.mapping key d)
+    if k.seteq key then .ok (.mapping k rows, s)       -- `unique_key == self.unique_key`: same object
+    else
+      match dictDedup key rows with
+      | .error e => .error e
+      | .ok d => .ok (.mapping key d, s)
+  | _ =>
+    match iterateS σ it s with
+    | .error e => .error e
+    | .ok (rows, s1) =>
+      match dictDedup key rows with
+      | .error e => .error e
+      | .ok d => .ok (.mapping key d, s1)
 
 /-- `RowIterable.sliced(start, stop)`. -/
 def sliced (σ : Leaves) (it : Iterable) (s : Nat) (e : Option Nat) : Iterable :=
@@ -206,12 +213,13 @@ def sliced (σ : Leaves) (it : Iterable) (s : Nat) (e : Option Nat) : Iterable :
   | _ => .slice it s e
 
 /-- `RowIterable.materialized()`. -/
-def materializedIt (σ : Leaves) (it : Iterable) : ExecM Iterable :=
+def materializedIt (σ : Leaves) (it : Iterable) (s : ExecState) : Except Err (Iterable × ExecState) :=
   match it with
-  | .seq _ | .mapping _ _ | .leafRef _ => pure it
-  | _ => do
-    let rows ← iterateM σ it
-    pure (.seq rows)
+  | .seq _ | .mapping _ _ | .leafRef _ => .ok (it, s)
+  | _ =>
+    match iterateS σ it s with
+    | .error e => .error e
+    | .ok (rows, s1) => .ok (.seq rows, s1)
 
 /-- Tuple comparison `tuple(a) <= tuple(b)` on equally long integer tuples. -/
 def tupleLe : List Int → List Int → Bool
@@ -243,47 +251,64 @@ def Rel.payloadIt (s : ExecState) : Rel → Option Iterable
   | .binary .. => none
   | r => s.payload r.oid
 
-/-- `iteration.Engine.execute(relation)` for the engine `self`. -/
-def exec (σ : Leaves) : Engine → Rel → ExecM Iterable
-  | self, r => do
-    if r.engine != self then throw .engine
-    if r.maxRows == some 0 then return .seq []
-    if r.isJoinIdentity then return .seq [Row.empty]
-    if let some p := r.payloadIt (← get) then return p
-    match r with
-    | .unary op t cols =>
-      let targetRows ← exec σ self t
-      match op with
-      | .calc tag e => return .calc targetRows tag e
-      | .dedup => toMapping σ targetRows cols.keys
-      | .proj c => return .proj targetRows c
-      | .sel p => return .sel targetRows p
-      | .slice s e => return sliced σ targetRows s e
-      | .sort ts =>
-        let rows ← iterateM σ targetRows
-        if rows.all (fun row => ts.all (fun t => (t.expr.eval row).isSome)) then
-          return .seq (multipassSort ts rows)
-        else throw .key
-      | .identity => throw .engine      -- apply_custom_unary_operation
-    | .binary op l rr _ =>
-      match op with
-      | .chain =>
-        let a ← exec σ self l
-        let b ← exec σ self rr
-        return .chain a b
-      | .join _ => throw .engine
-      | .ignoreOne _ => throw .engine
-    | .mat oid _ t =>
-      let inner ← exec σ self t
-      let result ← materializedIt σ inner
-      -- relation.attach_payload(result): the payload is None here (checked above)
-      modify (fun s => { s with payloads := (oid, result) :: s.payloads })
-      return result
-    | .transfer _ _ t =>
-      match t.engine.kind with
-      | .iter => exec σ t.engine t
-      | .sql => throw .engine
-    | .select _ _ _ _ _ _ _ _ t => exec σ self t
-    | .leaf .. => throw .assertion
+/-- The step of `execute` for one unary operation, given the executed target. -/
+def execOp (σ : Leaves) (op : UOp) (cols : Cols) (targetRows : Iterable) (s : ExecState) :
+    Except Err (Iterable × ExecState) :=
+  match op with
+  | .calc tag e => .ok (.calc targetRows tag e, s)
+  | .dedup => toMapping σ targetRows cols.keys s
+  | .proj c => .ok (.proj targetRows c, s)
+  | .sel p => .ok (.sel targetRows p, s)
+  | .slice a b => .ok (sliced σ targetRows a b, s)
+  | .sort ts =>
+    match iterateS σ targetRows s with
+    | .error e => .error e
+    | .ok (rows, s1) =>
+      if rows.all (fun row => ts.all (fun t => (t.expr.eval row).isSome)) then
+        .ok (.seq (multipassSort ts rows), s1)
+      else .error .key
+  | .identity => .error .engine          -- apply_custom_unary_operation
+
+/-- `iteration.Engine.execute(relation)` for the engine `self`, as an explicit state transformer. -/
+def exec (σ : Leaves) : Engine → Rel → ExecState → Except Err (Iterable × ExecState)
+  | self, r, s =>
+    if r.engine != self then .error .engine
+    else if r.maxRows == some 0 then .ok (.seq [], s)
+    else if r.isJoinIdentity then .ok (.seq [Row.empty], s)
+    else
+      match r.payloadIt s with
+      | some p => .ok (p, s)
+      | none =>
+        match r with
+        | .unary op t cols =>
+          match exec σ self t s with
+          | .error e => .error e
+          | .ok (tr, s1) => execOp σ op cols tr s1
+        | .binary op l rr _ =>
+          match op with
+          | .chain =>
+            match exec σ self l s with
+            | .error e => .error e
+            | .ok (a, s1) =>
+              match exec σ self rr s1 with
+              | .error e => .error e
+              | .ok (b, s2) => .ok (.chain a b, s2)
+          | .join _ => .error .engine
+          | .ignoreOne _ => .error .engine
+        | .mat oid _ t =>
+          match exec σ self t s with
+          | .error e => .error e
+          | .ok (inner, s1) =>
+            match materializedIt σ inner s1 with
+            | .error e => .error e
+            | .ok (result, s2) =>
+              -- relation.attach_payload(result): the payload is None here (checked above)
+              .ok (result, { s2 with payloads := (oid, result) :: s2.payloads })
+        | .transfer _ _ t =>
+          match t.engine.kind with
+          | .iter => exec σ t.engine t s
+          | .sql => .error .engine
+        | .select _ _ _ _ _ _ _ _ t => exec σ self t s
+        | .leaf .. => .error .assertion
 
 end DafRel
